@@ -759,11 +759,14 @@ class ISMAGS:
                     # matters.
                     # So option 1) Hit it with a big hammer and simply make all
                     # orderings.
-                    permutations = cls._get_permutations_by_length(refined)
+                    # This is iterated over once for every partial partition,
+                    # so it can't be a generator. Every permutation consists of
+                    # one group of cells per cell length; all are needed.
+                    permutations = list(cls._get_permutations_by_length(refined))
                     new_output = []
                     for n_p in output:
                         for permutation in permutations:
-                            new_output.append(n_p + list(permutation[0]))
+                            new_output.append(n_p + [cell for group in permutation for cell in group])
                     output = new_output
                 else:
                     for n_p in output:
